@@ -122,4 +122,23 @@ PROPS = {
         "assumptions": [],
         "partial": ["slice-vs-io reader agreement and to_value/from_value are checked by the typed sub-harness on the implementation, not proved"],
     },
+    "C06": {
+        "class_prefixes": ["c06-", "harness-crash"],
+        "subs": [
+            {"name": "frame", "n_quick": 300, "n_thorough": 6000, "model": "coq/Frame/Transfer.v, coq/Lib/LengthDelimited.v",
+             "rule": "xfer: random Transfer performatives (tags 0..32 bytes, every optional field) with payload lengths within +-40 of each "
+                     "multiple of the frame body size and random up to 3 frames, M in {512,513,600,1024} (4096, 65536 in thorough), sent "
+                     "through the real Transport; other: Open with 0..80 capabilities / Begin / Flow / Close incl. oversize; ldf: 1-4 frames "
+                     "(valid, empty, too big, size<4, truncated) cut into 1-byte / small / large reads fed to the configured decoder; "
+                     "rt: transfers sent through one Transport and read back through another with random cuts"},
+        ],
+        "rule": "a case is one frame send or one scripted read sequence run on the real Transport and on the extracted Coq model "
+                "(bytes compared); non-trivial = a transfer of >= 2 frames, any non-transfer frame, a multi-read sequence; distinct by case text",
+        "trusted": ["model scope: frames/amqp.rs write_header / FrameEncoder::{new, encode_transfer} / Encoder::encode, transport/mod.rs "
+                    "start_send + set_encoder_max_frame_size + length_delimited_{encoder,decoder} config; tokio-util's LengthDelimitedCodec "
+                    "decoder is modelled (coq/Lib/LengthDelimited.v) and validated by the ldf cases, not proved; the performative "
+                    "encodings are parameters of the theorems (they come from the codec, C03)"],
+        "assumptions": ["the transfer performative fits one frame body (first <= M-8, middle < M-8): holds for delivery-tags <= 32 bytes without a large state"],
+        "partial": ["decoding a frame body into a performative is the typed codec (C03/C20), exercised by the rt cases, not modelled here"],
+    },
 }
